@@ -95,7 +95,11 @@ func Unmarshal(s string, k protoreflect.Kind, evs protoreflect.EnumValueDescript
 		case "nan":
 			v = math.NaN()
 		default:
-			v, err = strconv.ParseFloat(s, 64)
+			bitSize := 64
+			if k == protoreflect.FloatKind {
+				bitSize = 32
+			}
+			v, err = strconv.ParseFloat(s, bitSize)
 		}
 		if err == nil {
 			if k == protoreflect.FloatKind {
